@@ -383,9 +383,13 @@ func CheckMain(id, tier string) int {
 		"wall_s":      time.Since(start).Seconds(),
 		"violations":  newViol,
 	}
-	os.MkdirAll(filepath.Join(VerifDir(), "evidence"), 0o755)
+	evDir := filepath.Join(VerifDir(), "evidence")
+	if d := os.Getenv("VERIF_EVIDENCE_DIR"); d != "" {
+		evDir = d // runs against deliberately modified trees keep their evidence apart
+	}
+	os.MkdirAll(evDir, 0o755)
 	b, _ := json.MarshalIndent(ev, "", " ")
-	if err := os.WriteFile(filepath.Join(VerifDir(), "evidence", id+".json"), b, 0o644); err != nil {
+	if err := os.WriteFile(filepath.Join(evDir, id+".json"), b, 0o644); err != nil {
 		fmt.Fprintln(os.Stderr, "evidence:", err)
 		return 2
 	}
